@@ -44,6 +44,7 @@
 
 #define MAXHOPS 18
 #define MAXREQ 4
+#define MAXREP 3
 #define HDRCAP 64
 #define LONG_MS 10000
 #define DROP_WAIT_MS 250
@@ -457,6 +458,7 @@ typedef struct {
 	int        id;
 	bool       raw;
 	int        b0; // backtrace words already present before the request id
+	int        at; // forwarder whose front this requester dials (1 = head of the chain)
 	uint32_t   pre[2];
 	nng_socket s;
 	pcount    *pc;
@@ -475,9 +477,11 @@ struct chain {
 	int           ttl[2][MAXHOPS + 2]; // [phase][1..k+1]
 	int           ttl_back[MAXHOPS + 2];
 	requester     rq[MAXREQ];
-	replier       rp;
+	int           nrep; // repliers behind the last back socket (fan-out)
+	replier       rp[MAXREP];
 	bool          rep_raw;
-	pcount       *pc_rep;
+	bool          resend; // cooked REQ resends every 30 ms, replier mute at first
+	pcount       *pc_rep[MAXREP];
 	int           tran_rep;
 	int           ndeliv, ndrop;
 	char          ctx[96];
@@ -511,11 +515,19 @@ gate_leave(chain *c)
 }
 
 // 0 = delivered, else the index of the socket that must discard the request
+// A requester attached at forwarder 'at' arrives at socket j (>= at) with
+// (j - at + 1) + b0 backtrace words.
 static int
-drop_at(const chain *c, int phase, int b0)
+words_at(int j, int at, int b0)
 {
-	for (int j = 1; j <= c->k + 1; j++) {
-		if (j + b0 > c->ttl[phase][j]) {
+	return j - at + 1 + b0;
+}
+
+static int
+drop_at(const chain *c, int phase, int b0, int at)
+{
+	for (int j = at; j <= c->k + 1; j++) {
+		if (words_at(j, at, b0) > c->ttl[phase][j]) {
 			return j;
 		}
 	}
@@ -569,8 +581,10 @@ tap_out_main(void *arg)
 		if (vf_body_check(nng_msg_body(m), nng_msg_len(m), &tag, &seq) != 0 || tag >= (uint32_t) c->nreq) {
 			vf_violation("C13/body-changed", "%s: tap at hop %d received a request whose body is not one that was sent (len %zu)", c->ctx, t->pos, nng_msg_len(m));
 		} else {
-			int want = t->pos + c->rq[tag].b0 + 1;
-			if (hl != (size_t) want * 4) {
+			int want = words_at(t->pos, c->rq[tag].at, c->rq[tag].b0) + 1;
+			if (t->pos < c->rq[tag].at) {
+				vf_violation("C13/request-misrouted", "%s: forwarder %d received a request of requester %u which is attached behind it (at forwarder %d)", c->ctx, t->pos, tag, c->rq[tag].at);
+			} else if (hl != (size_t) want * 4) {
 				vf_violation("C13/backtrace-depth", "%s: request of requester %u arrives at forwarder %d with %zu header bytes, expected %d words (one per hop + request id)", c->ctx, tag, t->pos, hl, want);
 			} else if (!bt_shape_ok(h, hl)) {
 				vf_violation("C13/backtrace-shape", "%s: header at forwarder %d is not <peer ids with high bit clear><id with high bit set>", c->ctx, t->pos);
@@ -586,6 +600,11 @@ tap_out_main(void *arg)
 				memcpy(o->hdr, h, o->hlen);
 			}
 			if (o != NULL) {
+				if (o->out_seen > 0 && (o->hlen != hl || memcmp(o->hdr, h, hl) != 0)) {
+					vf_violation("C13/backtrace-unstable", "%s: a re-sent request passes forwarder %d with a different header than its first copy", c->ctx, t->pos);
+				} else if (o->out_seen > 0) {
+					vf_stat("resent_copies_same_backtrace", 1);
+				}
 				o->out_seen++;
 			}
 			pthread_mutex_unlock(&t->mtx);
@@ -668,8 +687,9 @@ requester_main(void *arg)
 	requester *q  = arg;
 	chain     *c  = q->c;
 	int        ph = q->phase;
-	int        d  = drop_at(c, ph, q->b0);
+	int        d  = drop_at(c, ph, q->b0, q->at);
 	int        n  = d ? c->ndrop : c->ndeliv;
+	int        nans = c->fam == 1 ? c->nrep : 1; // a survey is answered by every respondent
 	int        wait_ms = d ? DROP_WAIT_MS : LONG_MS;
 
 	nng_socket_set_ms(q->s, NNG_OPT_RECVTIMEO, wait_ms);
@@ -706,48 +726,57 @@ requester_main(void *arg)
 		}
 		q->sent[ph] = i + 1;
 		rv          = nng_recvmsg(q->s, &r, 0);
-		if (d == 0) {
-			gate_leave(c);
-		}
 		if (d != 0) {
 			if (rv == 0) {
-				vf_violation("C13/over-ttl-answered", "%s: requester %d got a reply although its request arrives at socket %d with %d backtrace words and MAXTTL there is %d", c->ctx, q->id, d, d + q->b0, c->ttl[ph][d]);
+				vf_violation("C13/over-ttl-answered", "%s: requester %d got a reply although its request arrives at socket %d with %d backtrace words and MAXTTL there is %d", c->ctx, q->id, d, words_at(d, q->at, q->b0), c->ttl[ph][d]);
 				nng_msg_free(r);
 			} else {
 				vf_stat("requests_timed_out_as_predicted", 1);
 			}
 			continue;
 		}
-		if (rv != 0) {
-			vf_violation("C13/reply-lost", "%s: requester %d (b0=%d) phase %d msg %d: no reply within %d ms (%s) although every socket on the path has MAXTTL >= the words it sees", c->ctx, q->id, q->b0, ph, i, LONG_MS, nng_strerror(rv));
-			continue;
-		}
-		uint32_t tag = 0;
-		uint64_t rs  = 0;
-		want         = malloc(sz);
-		vf_body_make(want, sz, (uint32_t) q->id, seq);
-		if (nng_msg_len(r) == sz && memcmp(nng_msg_body(r), want, sz) == 0) {
-			bool ok = true;
-			if (q->raw) {
-				size_t hl = (size_t) (q->b0 + 1) * 4;
-				if (nng_msg_header_len(r) != hl || memcmp(nng_msg_header(r), q->shdr[ph][i], hl) != 0) {
-					vf_violation("C13/backtrace-unwind", "%s: raw requester %d receives its reply with a %zu-byte header, sent %zu bytes (backtrace not unwound exactly)", c->ctx, q->id, nng_msg_header_len(r), hl);
-					ok = false;
+		int nok = 0;
+		for (int ans = 0; ans < nans; ans++) {
+			if (ans > 0) {
+				rv = nng_recvmsg(q->s, &r, 0);
+			}
+			if (rv != 0) {
+				vf_violation("C13/reply-lost", "%s: requester %d (b0=%d, attached at %d) phase %d msg %d: answer %d of %d did not arrive within %d ms (%s) although every socket on the path has MAXTTL >= the words it sees", c->ctx, q->id, q->b0, q->at, ph, i, ans + 1, nans, LONG_MS, nng_strerror(rv));
+				break;
+			}
+			uint32_t tag = 0;
+			uint64_t rs  = 0;
+			want         = malloc(sz);
+			vf_body_make(want, sz, (uint32_t) q->id, seq);
+			if (nng_msg_len(r) == sz && memcmp(nng_msg_body(r), want, sz) == 0) {
+				bool ok = true;
+				if (q->raw) {
+					size_t hl = (size_t) (q->b0 + 1) * 4;
+					if (nng_msg_header_len(r) != hl || memcmp(nng_msg_header(r), q->shdr[ph][i], hl) != 0) {
+						vf_violation("C13/backtrace-unwind", "%s: raw requester %d receives its reply with a %zu-byte header, sent %zu bytes (backtrace not unwound exactly)", c->ctx, q->id, nng_msg_header_len(r), hl);
+						ok = false;
+					}
 				}
+				if (ok) {
+					nok++;
+					vf_stat("replies_verified", 1);
+				}
+			} else if (vf_body_check(nng_msg_body(r), nng_msg_len(r), &tag, &rs) == 0 && tag != (uint32_t) q->id) {
+				vf_violation("C13/reply-misrouted", "%s: requester %d received the reply that belongs to requester %u", c->ctx, q->id, tag);
+			} else if (vf_body_check(nng_msg_body(r), nng_msg_len(r), &tag, &rs) == 0) {
+				vf_violation("C13/reply-mismatch", "%s: requester %d asked seq %llx and received the reply for seq %llx", c->ctx, q->id, (unsigned long long) seq, (unsigned long long) rs);
+			} else {
+				vf_violation("C13/body-changed", "%s: requester %d received a reply of %zu bytes that is not the %zu-byte body it sent", c->ctx, q->id, nng_msg_len(r), sz);
 			}
-			if (ok) {
-				q->got[ph][i] = true;
-				vf_stat("replies_verified", 1);
-			}
-		} else if (vf_body_check(nng_msg_body(r), nng_msg_len(r), &tag, &rs) == 0 && tag != (uint32_t) q->id) {
-			vf_violation("C13/reply-misrouted", "%s: requester %d received the reply that belongs to requester %u", c->ctx, q->id, tag);
-		} else if (vf_body_check(nng_msg_body(r), nng_msg_len(r), &tag, &rs) == 0) {
-			vf_violation("C13/reply-mismatch", "%s: requester %d asked seq %llx and received the reply for seq %llx", c->ctx, q->id, (unsigned long long) seq, (unsigned long long) rs);
-		} else {
-			vf_violation("C13/body-changed", "%s: requester %d received a reply of %zu bytes that is not the %zu-byte body it sent", c->ctx, q->id, nng_msg_len(r), sz);
+			free(want);
+			nng_msg_free(r);
+			r = NULL;
 		}
-		free(want);
-		nng_msg_free(r);
+		gate_leave(c); // held for the whole exchange
+		q->got[ph][i] = nok == nans;
+		if (nok == nans && nans > 1) {
+			vf_stat("surveys_answered_by_all_respondents", 1);
+		}
 	}
 	if (q->raw) {
 		// a raw requester sees everything that is routed to it
@@ -857,11 +886,34 @@ chain_case(long idx)
 		scen       = 5;
 	}
 	chain_gen_ttl(c, &r, scen);
+	// fan-out: several repliers behind the last back socket (raw REQ picks
+	// one pipe per request, raw SURVEYOR sends to all); fan-in: requesters
+	// that join the chain at a deeper forwarder.
+	c->nrep = 1;
+	if (c->k >= 1 && vf_chance(&r, 1, 3)) {
+		c->nrep = c->fam == 1 ? 2 : (int) vf_range(&r, 2, MAXREP);
+	}
+	for (int i = 0; i < c->nreq; i++) {
+		c->rq[i].at = 1;
+		if (c->k >= 2 && vf_chance(&r, 1, 3)) {
+			c->rq[i].at = (int) vf_range(&r, 2, (uint32_t) c->k);
+		}
+	}
+	// re-sent requests: cooked REQ with a 30 ms resend time, repliers mute
+	// for the first 120 ms of a phase
+	c->resend = c->fam == 0 && scen != 5 && vf_chance(&r, 1, 5);
+	if (c->resend) {
+		for (int i = 0; i < c->nreq; i++) {
+			c->rq[i].raw = false;
+			c->rq[i].b0  = 0;
+		}
+	}
 	pthread_mutex_init(&c->gate_mtx, NULL);
 	pthread_cond_init(&c->gate_cv, NULL);
-	c->gate_free = c->fam == 1 ? 2 : MAXREQ;
+	// survey: 2 responses per pipe queue at most (see gate comment)
+	c->gate_free = c->fam == 1 ? (c->nrep > 1 ? 1 : 2) : MAXREQ;
 	snprintf(c->ctx, sizeof(c->ctx), "%s k=%d", c->f->name, c->k);
-	vf_case_begin(idx, "chain fam=%s k=%d nreq=%d taps=%d scen=%d phases=%d rawrep=%d", c->f->name, c->k, c->nreq, ntaps, scen, c->nphase, c->rep_raw);
+	vf_case_begin(idx, "chain fam=%s k=%d nreq=%d at=%d,%d,%d,%d nrep=%d resend=%d taps=%d scen=%d phases=%d rawrep=%d", c->f->name, c->k, c->nreq, c->rq[0].at, c->rq[1].at, c->rq[2].at, c->rq[3].at, c->nrep, c->resend, ntaps, scen, c->nphase, c->rep_raw);
 	vf_watchdog(180);
 	set_pert(&r, &pert);
 
@@ -877,31 +929,49 @@ chain_case(long idx)
 		sk_listen(h->front, h->tran, durl[j], sizeof(durl[j]));
 	}
 	c->tran_rep = pick_tran(&r);
-	nng_socket reps = sk_open(c->rep_raw ? c->f->rep_raw : c->f->rep, c->ttl[0][c->k + 1], &c->pc_rep);
-	sk_listen(reps, c->tran_rep, durl[c->k + 1], sizeof(durl[c->k + 1]));
+	nng_socket reps[MAXREP];
+	char       rurl[MAXREP][128];
+	for (int x = 0; x < c->nrep; x++) {
+		reps[x] = sk_open(c->rep_raw ? c->f->rep_raw : c->f->rep, c->ttl[0][c->k + 1], &c->pc_rep[x]);
+		sk_listen(reps[x], x == 0 ? c->tran_rep : pick_tran(&r), x == 0 ? durl[c->k + 1] : rurl[x], 128);
+	}
 	for (int j = 1; j <= c->k; j++) {
 		sk_dial(c->h[j].back, durl[j + 1]);
+	}
+	for (int x = 1; x < c->nrep; x++) {
+		sk_dial(c->h[c->k].back, rurl[x]);
 	}
 	for (int i = 0; i < c->nreq; i++) {
 		requester *q = &c->rq[i];
 		q->s = sk_open(q->raw ? c->f->req_raw : c->f->req, 15, &q->pc);
 		if (!q->raw && c->fam == 0) {
-			nng_socket_set_ms(q->s, NNG_OPT_REQ_RESENDTIME, NNG_DURATION_INFINITE);
+			nng_socket_set_ms(q->s, NNG_OPT_REQ_RESENDTIME, c->resend ? 30 : NNG_DURATION_INFINITE);
+			if (c->resend && nng_socket_set_ms(q->s, NNG_OPT_REQ_RESENDTICK, 10) != 0) {
+				vf_harness_fail("set resend tick");
+			}
 		}
-		sk_dial(q->s, durl[1]);
+		sk_dial(q->s, durl[q->at]);
 	}
 	for (int j = 1; j <= c->k; j++) {
 		char what[64];
 		snprintf(what, sizeof(what), "forwarder %d front (%s)", j, vf_tran_names[c->h[j].tran]);
-		pc_wait(c->h[j].pc_front, j == 1 ? c->nreq : 1, what);
+		int nin = j > 1 ? 1 : 0;
+		for (int i = 0; i < c->nreq; i++) {
+			nin += c->rq[i].at == j;
+		}
+		pc_wait(c->h[j].pc_front, nin, what);
 		snprintf(what, sizeof(what), "forwarder %d back (next link %s)", j, vf_tran_names[j < c->k ? c->h[j + 1].tran : c->tran_rep]);
-		pc_wait(c->h[j].pc_back, 1, what);
+		pc_wait(c->h[j].pc_back, j == c->k ? c->nrep : 1, what);
 	}
-	pc_wait(c->pc_rep, c->k == 0 ? c->nreq : 1, "replier");
+	for (int x = 0; x < c->nrep; x++) {
+		pc_wait(c->pc_rep[x], c->k == 0 ? c->nreq : 1, "replier");
+	}
 	for (int i = 0; i < c->nreq; i++) {
 		pc_wait(c->rq[i].pc, 1, "requester");
 	}
-	replier_start(&c->rp, reps, c->rep_raw);
+	for (int x = 0; x < c->nrep; x++) {
+		replier_start(&c->rp[x], reps[x], c->rep_raw);
+	}
 	for (int j = c->k; j >= 1; j--) {
 		hop *h = &c->h[j];
 		if (h->is_tap) {
@@ -931,12 +1001,21 @@ chain_case(long idx)
 				vf_harness_fail("set ttl on tap");
 			}
 		}
-		if (nng_socket_set_int(reps, NNG_OPT_MAXTTL, c->ttl[ph][c->k + 1]) != 0) {
-			vf_harness_fail("set ttl on replier");
+		for (int x = 0; x < c->nrep; x++) {
+			if (nng_socket_set_int(reps[x], NNG_OPT_MAXTTL, c->ttl[ph][c->k + 1]) != 0) {
+				vf_harness_fail("set ttl on replier");
+			}
+			atomic_store(&c->rp[x].mute, c->resend);
 		}
 		for (int i = 0; i < c->nreq; i++) {
 			c->rq[i].phase = ph;
 			pthread_create(&c->rq[i].th, NULL, requester_main, &c->rq[i]);
+		}
+		if (c->resend) {
+			vf_msleep(120);
+			for (int x = 0; x < c->nrep; x++) {
+				atomic_store(&c->rp[x].mute, false);
+			}
 		}
 		for (int i = 0; i < c->nreq; i++) {
 			pthread_join(c->rq[i].th, NULL);
@@ -950,7 +1029,9 @@ chain_case(long idx)
 		for (int i = 0; i < c->nreq; i++) {
 			nng_socket_close(c->rq[i].s);
 		}
-		replier_stop(&c->rp);
+		for (int x = 0; x < c->nrep; x++) {
+			replier_stop(&c->rp[x]);
+		}
 	}
 	for (int j = 1; j <= c->k; j++) {
 		hop *h = &c->h[j];
@@ -967,73 +1048,95 @@ chain_case(long idx)
 		for (int i = 0; i < c->nreq; i++) {
 			nng_socket_close(c->rq[i].s);
 		}
-		replier_stop(&c->rp);
+		for (int x = 0; x < c->nrep; x++) {
+			replier_stop(&c->rp[x]);
+		}
 	}
 	vf_pt_off();
 
 	// ---- analysis
+	int served_mask = 0;
 	for (int i = 0; i < c->nreq; i++) {
-		requester *q = &c->rq[i];
+		requester *q    = &c->rq[i];
+		int        nans = c->fam == 1 ? c->nrep : 1;
 		for (int ph = 0; ph < c->nphase; ph++) {
-			int d = drop_at(c, ph, q->b0);
+			int d = drop_at(c, ph, q->b0, q->at);
 			for (int n = 0; n < q->sent[ph]; n++) {
 				uint64_t seq = req_seq(ph, n);
 				// observation points in path order
-				const uint8_t *oh[6];
-				size_t         ol[6];
-				int            op[6], no = 0;
+				const uint8_t *oh[8];
+				size_t         ol[8];
+				int            op[8], no = 0;
 				if (q->raw) {
 					oh[no] = q->shdr[ph][n];
 					ol[no] = (size_t) (q->b0 + 1) * 4;
-					op[no++] = 0;
+					op[no++] = q->at - 1;
 				}
-				for (int j = 1; j <= c->k; j++) {
+				for (int j = q->at; j <= c->k; j++) {
 					if (!c->h[j].is_tap) {
 						continue;
 					}
 					obsrec *o = obs_find(c->h[j].tp, (uint32_t) q->id, seq);
 					bool    should = d == 0 || j < d;
 					if (o != NULL && !should) {
-						vf_violation("C13/over-ttl-forwarded", "%s: request with %d backtrace words was accepted by forwarder %d whose front MAXTTL is %d (first socket that must discard it: %d)", c->ctx, j + q->b0, j, c->ttl[ph][j], d);
+						vf_violation("C13/over-ttl-forwarded", "%s: request with %d backtrace words was accepted by forwarder %d whose front MAXTTL is %d (first socket that must discard it: %d)", c->ctx, words_at(j, q->at, q->b0), j, c->ttl[ph][j], d);
 					} else if (o == NULL && should) {
-						vf_violation("C13/within-ttl-dropped", "%s: request of requester %d (b0=%d) never reached forwarder %d although no socket before it has MAXTTL below the words it sees", c->ctx, q->id, q->b0, j);
+						vf_violation("C13/within-ttl-dropped", "%s: request of requester %d (b0=%d, attached at %d) never reached forwarder %d although no socket before it has MAXTTL below the words it sees", c->ctx, q->id, q->b0, q->at, j);
 					} else if (o != NULL) {
-						if (o->out_seen != 1) {
+						if (o->out_seen != 1 && !c->resend) {
 							vf_violation("C13/duplicate-forward", "%s: forwarder %d saw the same request %d times", c->ctx, j, o->out_seen);
+						} else if (o->out_seen > 1) {
+							vf_stat("resent_requests_seen_by_taps", 1);
 						}
 						if (d != 0 && o->back_seen != 0) {
 							vf_violation("C13/over-ttl-answered", "%s: forwarder %d saw a reply for a request that must have been discarded at socket %d", c->ctx, j, d);
-						} else if (d == 0 && q->got[ph][n] && o->back_seen != 1) {
-							vf_violation("C13/duplicate-forward", "%s: forwarder %d saw the reply %d times", c->ctx, j, o->back_seen);
+						} else if (d == 0 && q->got[ph][n] && (c->resend ? o->back_seen < 1 : o->back_seen != nans)) {
+							vf_violation("C13/duplicate-forward", "%s: forwarder %d saw %d replies to one request, expected %d", c->ctx, j, o->back_seen, nans);
 						}
 						oh[no] = o->hdr;
 						ol[no] = o->hlen;
 						op[no++] = j;
 					}
 				}
-				// replier log
-				int      cnt = 0;
+				// replier logs: reqrep - exactly one replier, once; survey -
+				// every respondent, once each
+				int      cnt = 0, maxper = 0, nserved = 0;
 				arrival *arr = NULL;
-				for (int a = 0; a < c->rp.n; a++) {
-					uint32_t tg;
-					uint64_t sq;
-					if (vf_body_check(c->rp.log[a].body, c->rp.log[a].blen, &tg, &sq) == 0 && tg == (uint32_t) q->id && sq == seq) {
-						cnt++;
-						arr = &c->rp.log[a];
+				for (int x = 0; x < c->nrep; x++) {
+					int per = 0;
+					for (int a = 0; a < c->rp[x].n; a++) {
+						uint32_t tg;
+						uint64_t sq;
+						arrival *ar = &c->rp[x].log[a];
+						if (vf_body_check(ar->body, ar->blen, &tg, &sq) == 0 && tg == (uint32_t) q->id && sq == seq) {
+							per++;
+							arr = ar;
+							if (c->rep_raw) {
+								size_t want = (size_t) (words_at(c->k + 1, q->at, q->b0) + 1) * 4;
+								if (ar->hlen != want || !bt_shape_ok(ar->hdr, ar->hlen)) {
+									vf_violation("C13/backtrace-depth", "%s: the raw replier sees a %zu-byte header, expected %zu (one word per hop + id) with only the last high bit set", c->ctx, ar->hlen, want);
+								}
+							}
+						}
+					}
+					cnt += per;
+					nserved += per > 0;
+					maxper = per > maxper ? per : maxper;
+					if (per > 0) {
+						served_mask |= 1 << x;
 					}
 				}
+				bool exact = false;
 				if (d != 0 && cnt != 0) {
-					vf_violation("C13/over-ttl-delivered", "%s: a request arriving at socket %d with %d backtrace words (MAXTTL %d there) reached the replier", c->ctx, d, d + q->b0, c->ttl[ph][d]);
-				} else if (d == 0 && cnt == 0) {
-					vf_violation("C13/within-ttl-dropped", "%s: request of requester %d (b0=%d) never reached the replier although every MAXTTL on the path allows it", c->ctx, q->id, q->b0);
-				} else if (cnt > 1) {
-					vf_violation("C13/duplicate-delivery", "%s: the replier received one request %d times", c->ctx, cnt);
+					vf_violation("C13/over-ttl-delivered", "%s: a request arriving at socket %d with %d backtrace words (MAXTTL %d there) reached the replier", c->ctx, d, words_at(d, q->at, q->b0), c->ttl[ph][d]);
+				} else if (d == 0 && nserved < nans) {
+					vf_violation("C13/within-ttl-dropped", "%s: request of requester %d (b0=%d, attached at %d) reached %d of %d repliers that must receive it although every MAXTTL on the path allows it", c->ctx, q->id, q->b0, q->at, nserved, nans);
+				} else if (d == 0 && !c->resend && (cnt != nans || maxper > 1)) {
+					vf_violation("C13/duplicate-delivery", "%s: one request was received %d times by %d repliers (expected %d)", c->ctx, cnt, nserved, nans);
+				} else if (d == 0) {
+					exact = true;
 				}
 				if (arr != NULL && c->rep_raw) {
-					size_t want = (size_t) (c->k + 1 + q->b0 + 1) * 4;
-					if (arr->hlen != want || !bt_shape_ok(arr->hdr, arr->hlen)) {
-						vf_violation("C13/backtrace-depth", "%s: the raw replier sees a %zu-byte header, expected %zu (one word per hop + id) with only the last high bit set", c->ctx, arr->hlen, want);
-					}
 					oh[no] = arr->hdr;
 					ol[no] = arr->hlen;
 					op[no++] = c->k + 1;
@@ -1046,30 +1149,52 @@ chain_case(long idx)
 						vf_stat("backtrace_growth_pairs_verified", 1);
 					}
 				}
-				if (d == 0 && cnt == 1 && q->got[ph][n]) {
+				if (d == 0 && exact && q->got[ph][n]) {
 					vf_stat("requests_delivered_verified", 1);
+					if (q->at > 1) {
+						vf_stat("fanin_requests_delivered_verified", 1);
+					}
+					if (c->nrep > 1) {
+						vf_stat("fanout_requests_delivered_verified", 1);
+					}
+					if (c->resend && cnt > 1) {
+						vf_stat("resent_requests_delivered_more_than_once", 1);
+					}
 					bool atlimit = false;
-					for (int j = 1; j <= c->k + 1; j++) {
-						atlimit |= (j + q->b0 == c->ttl[ph][j]);
+					for (int j = q->at; j <= c->k + 1; j++) {
+						atlimit |= (words_at(j, q->at, q->b0) == c->ttl[ph][j]);
 					}
 					if (atlimit) {
 						vf_stat("delivered_with_words_equal_ttl", 1);
 					}
-					if (c->rep_raw && c->k + q->b0 == 14) {
+					if (c->rep_raw && words_at(c->k + 1, q->at, q->b0) == 15) {
 						vf_stat("delivered_with_header_at_capacity", 1);
 					}
 				} else if (d != 0 && cnt == 0) {
 					vf_stat("requests_dropped_verified", 1);
-					if (d + q->b0 == c->ttl[ph][d] + 1) {
+					if (q->at > 1) {
+						vf_stat("fanin_requests_dropped_verified", 1);
+					}
+					if (words_at(d, q->at, q->b0) == c->ttl[ph][d] + 1) {
 						vf_stat("dropped_with_words_ttl_plus_one", 1);
 					}
-					if (d > 15 - q->b0) {
-						// forwarder 15-b0 accepted it: 16 header words
+					if (words_at(d, q->at, q->b0) > 15) {
+						// the forwarder before d accepted it: 16 header words
 						vf_stat("forwarded_with_header_at_capacity", 1);
 					}
 				}
-				vf_class("chain/%s/k=%d/b0=%d/drop=%d/%s", c->f->name, c->k, q->b0, d, q->raw ? "rawreq" : "cooked");
+				vf_class("chain/%s/k=%d/b0=%d/at=%d/drop=%d/%s", c->f->name, c->k, q->b0, q->at > 1 ? (q->at == c->k ? 3 : 2) : 1, d, q->raw ? "rawreq" : "cooked");
 			}
+		}
+	}
+	if (c->nrep > 1) {
+		int ns = 0;
+		for (int x = 0; x < c->nrep; x++) {
+			ns += (served_mask >> x) & 1;
+		}
+		vf_class("fanout/%s/k=%d/repliers=%d/served=%d%s", c->f->name, c->k, c->nrep, ns, c->resend ? "/resend" : "");
+		if (ns > 1) {
+			vf_stat("fanout_cases_several_repliers_served", 1);
 		}
 	}
 	for (int j = 1; j <= c->k; j++) {
@@ -1078,10 +1203,12 @@ chain_case(long idx)
 		}
 	}
 	if ((idx & 15) == 0) {
-		vf_sample("{\"mode\":\"chain\",\"family\":\"%s\",\"k\":%d,\"requesters\":%d,\"taps\":%d,\"phases\":%d,\"ttl_first\":%d,\"ttl_replier\":[%d,%d],\"replier_arrivals\":%d}", c->f->name, c->k, c->nreq, ntaps, c->nphase, c->ttl[0][1], c->ttl[0][c->k + 1], c->ttl[1][c->k + 1], c->rp.n);
+		vf_sample("{\"mode\":\"chain\",\"family\":\"%s\",\"k\":%d,\"requesters\":%d,\"attached_at\":[%d,%d,%d,%d],\"repliers\":%d,\"resend\":%d,\"taps\":%d,\"phases\":%d,\"ttl_first\":%d,\"ttl_replier\":[%d,%d],\"replier0_arrivals\":%d}", c->f->name, c->k, c->nreq, c->rq[0].at, c->rq[1].at, c->rq[2].at, c->rq[3].at, c->nrep, c->resend, ntaps, c->nphase, c->ttl[0][1], c->ttl[0][c->k + 1], c->ttl[1][c->k + 1], c->rp[0].n);
 	}
 	vf_stat_max("max_chain_length", c->k);
-	replier_free(&c->rp);
+	for (int x = 0; x < c->nrep; x++) {
+		replier_free(&c->rp[x]);
+	}
 	for (int j = 1; j <= c->k; j++) {
 		if (c->h[j].tp) {
 			pthread_mutex_destroy(&c->h[j].tp->mtx);
@@ -1494,14 +1621,155 @@ bus_case(long idx, vf_rng *r)
 	vf_pt_off();
 }
 
+// One-way forwarders (device_init's single-path branch: the socket that
+// cannot receive is made the destination whatever the argument order) and a
+// raw pair0 forwarder: source -> 1..3 devices in a line -> 1-2 sinks.
+// push/pull: every message reaches exactly one sink; pub/sub: every sink;
+// pair0: one sink, both directions.  One message in flight at a time, so a
+// loss cannot be back-pressure.
+#define OW_MAXDEV 3
+static void
+oneway_case(long idx, vf_rng *r)
+{
+	static const char *kname[3] = { "pushpull", "pubsub", "pair0" };
+	int        kind = (int) vf_below(r, 3);
+	int        nd   = (int) vf_range(r, 1, OW_MAXDEV);
+	int        ns   = kind == 2 ? 1 : (int) vf_range(r, 1, 2);
+	vf_open_fn osrc = kind == 0 ? nng_push0_open : kind == 1 ? nng_pub0_open : nng_pair0_open;
+	vf_open_fn osnk = kind == 0 ? nng_pull0_open : kind == 1 ? nng_sub0_open : nng_pair0_open;
+	vf_open_fn ofr  = kind == 0 ? nng_pull0_open_raw : kind == 1 ? nng_sub0_open_raw : nng_pair0_open_raw;
+	vf_open_fn obk  = kind == 0 ? nng_push0_open_raw : kind == 1 ? nng_pub0_open_raw : nng_pair0_open_raw;
+	nng_socket src, snk[2], fr[OW_MAXDEV], bk[OW_MAXDEV];
+	pcount    *pcs, *pck[2], *pcf[OW_MAXDEV], *pcb[OW_MAXDEV];
+	devh       dev[OW_MAXDEV];
+	char       durl[OW_MAXDEV][128], surl[2][128], ctx[64];
+	int        pert, order = 0;
+
+	snprintf(ctx, sizeof(ctx), "oneway %s devices=%d sinks=%d", kname[kind], nd, ns);
+	vf_case_begin(idx, "loop fam=oneway kind=%s devices=%d sinks=%d", kname[kind], nd, ns);
+	vf_watchdog(120);
+	set_pert(r, &pert);
+	src = sk_open(osrc, 0, &pcs);
+	for (int i = 0; i < nd; i++) {
+		fr[i] = sk_open(ofr, 0, &pcf[i]);
+		bk[i] = sk_open(obk, 0, &pcb[i]);
+		sk_listen(fr[i], pick_tran(r), durl[i], sizeof(durl[i]));
+	}
+	for (int i = 0; i < ns; i++) {
+		snk[i] = sk_open(osnk, 0, &pck[i]);
+		if (kind == 1 && nng_sub0_socket_subscribe(snk[i], "", 0) != 0) {
+			vf_harness_fail("subscribe");
+		}
+		sk_listen(snk[i], pick_tran(r), surl[i], sizeof(surl[i]));
+	}
+	sk_dial(src, durl[0]);
+	for (int i = 0; i + 1 < nd; i++) {
+		sk_dial(bk[i], durl[i + 1]);
+	}
+	for (int i = 0; i < ns; i++) {
+		sk_dial(bk[nd - 1], surl[i]);
+	}
+	pc_wait(pcs, 1, "oneway source");
+	for (int i = 0; i < nd; i++) {
+		pc_wait(pcf[i], 1, "oneway front");
+		pc_wait(pcb[i], i == nd - 1 ? ns : 1, "oneway back");
+	}
+	for (int i = 0; i < ns; i++) {
+		pc_wait(pck[i], 1, "oneway sink");
+	}
+	for (int i = 0; i < nd; i++) {
+		// both argument orders: the device must find the receiving side
+		if (vf_chance(r, 1, 2)) {
+			dev_start(&dev[i], fr[i], bk[i]);
+		} else {
+			dev_start(&dev[i], bk[i], fr[i]);
+			order |= 1 << i;
+		}
+	}
+	int nmsg = (int) vf_range(r, 4, 10);
+	int per_sink[2] = { 0, 0 };
+	for (int k = 0; k < nmsg; k++) {
+		bool     back = kind == 2 && vf_chance(r, 1, 2); // pair0: sink -> source
+		size_t   sz   = VF_BODY_MIN + vf_below(r, (k & 3) == 3 ? 5000 : 300);
+		uint8_t *want = malloc(sz);
+		nng_msg *m;
+		int      rv, got = 0;
+		if (nng_msg_alloc(&m, sz) != 0) {
+			vf_harness_fail("alloc");
+		}
+		vf_body_make(nng_msg_body(m), sz, 0x300u + (uint32_t) kind, (uint64_t) k);
+		memcpy(want, nng_msg_body(m), sz);
+		if ((rv = nng_sendmsg(back ? snk[0] : src, m, 0)) != 0) {
+			nng_msg_free(m);
+			vf_violation("C13/oneway-send-failed", "%s: send into the forwarder line failed: %s", ctx, nng_strerror(rv));
+			free(want);
+			break;
+		}
+		int      need = kind == 1 ? ns : 1;
+		uint64_t end  = vf_now_ns() + (uint64_t) LONG_MS * 1000000ULL;
+		bool     seen[2] = { false, false };
+		while (got < need && vf_now_ns() < end) {
+			for (int i = 0; i < (back ? 1 : ns) && got < need; i++) {
+				nng_socket rx = back ? src : snk[i];
+				nng_msg   *g  = NULL;
+				if (!back && kind == 1 && seen[i]) {
+					continue;
+				}
+				nng_socket_set_ms(rx, NNG_OPT_RECVTIMEO, need == 1 && ns == 1 ? 1000 : 15);
+				if (nng_recvmsg(rx, &g, 0) != 0) {
+					continue;
+				}
+				if (nng_msg_len(g) != sz || memcmp(nng_msg_body(g), want, sz) != 0) {
+					vf_violation("C13/body-changed", "%s: message %d arrived with %zu bytes that differ from the %zu bytes sent", ctx, k, nng_msg_len(g), sz);
+				} else {
+					vf_stat("oneway_deliveries_verified", 1);
+				}
+				nng_msg_free(g);
+				seen[i] = true;
+				per_sink[i]++;
+				got++;
+			}
+		}
+		if (got < need) {
+			vf_violation("C13/oneway-forward-lost", "%s: message %d (%s) reached %d of %d receivers within %d ms with nothing else in flight", ctx, k, back ? "sink to source" : "source to sink", got, need, LONG_MS);
+		}
+		free(want);
+	}
+	// nothing may be left over: no duplicates, no reflection to the source
+	vf_quiesce(2, 2000);
+	for (int i = 0; i < ns + (kind == 2 ? 1 : 0); i++) {
+		nng_socket rx = i < ns ? snk[i] : src;
+		nng_msg   *g  = NULL;
+		nng_socket_set_ms(rx, NNG_OPT_RECVTIMEO, 20);
+		if (nng_recvmsg(rx, &g, 0) == 0) {
+			vf_violation("C13/oneway-duplicate", "%s: %s received an additional message of %zu bytes after every message had been accounted for", ctx, i < ns ? "a sink" : "the source", nng_msg_len(g));
+			nng_msg_free(g);
+		}
+	}
+	vf_class("oneway/%s/devices=%d/sinks=%d/order=%d/used=%d", kname[kind], nd, ns, order, (per_sink[0] > 0) + (per_sink[1] > 0));
+	for (int i = 0; i < nd; i++) {
+		vf_stat((order >> i) & 1 ? "oneway_devices_swapped_arguments" : "oneway_devices_natural_arguments", 1);
+	}
+	for (int i = 0; i < nd; i++) {
+		dev_stop(&dev[i], ctx);
+	}
+	nng_socket_close(src);
+	for (int i = 0; i < ns; i++) {
+		nng_socket_close(snk[i]);
+	}
+	vf_pt_off();
+}
+
 static void
 loop_case(long idx)
 {
 	vf_rng r;
 	vf_rng_seed(&r, vf_seed, (uint64_t) idx);
-	int which = (int) (idx % 4);
+	int which = (int) (idx % 5);
 	if (which == 3) {
 		bus_case(idx, &r);
+	} else if (which == 4) {
+		oneway_case(idx, &r);
 	} else {
 		ring_case(idx, &r, which);
 	}
@@ -2234,14 +2502,23 @@ stop_case(long idx)
 		int        kind = (int) vf_below(&r, 4);
 		a = sk_open(kind == 0 ? fm->rep : fm->rep_raw, 0, NULL);
 		b = sk_open(kind == 1 ? fm->rep_raw : kind == 2 ? nng_pair1_open_raw : fm->req_raw, 0, NULL);
-		if (kind == 3) {
-			// both invalid
-			dev_start(&dev, none, none);
+		if (vf_chance(&r, 1, 2)) {
+			// the blocking wrapper must return the refusal, not block
+			rv = kind == 3 ? (int) nng_device(none, none) : (int) nng_device(a, b);
+			if (nng_aio_alloc(&dev.aio, NULL, NULL) != 0) {
+				vf_harness_fail("aio alloc");
+			}
+			vf_stat("blocking_device_refusals", 1);
 		} else {
-			dev_start(&dev, a, b);
+			if (kind == 3) {
+				// both invalid
+				dev_start(&dev, none, none);
+			} else {
+				dev_start(&dev, a, b);
+			}
+			nng_aio_wait(dev.aio);
+			rv = (int) nng_aio_result(dev.aio);
 		}
-		nng_aio_wait(dev.aio);
-		rv = (int) nng_aio_result(dev.aio);
 		if (rv == 0) {
 			vf_violation("C13/device-stop/no-error", "%s: nng_device_aio on an invalid socket pairing (kind %d) completed with result 0", ctx, kind);
 		} else {
